@@ -90,21 +90,18 @@ func (f *FieldCopyToGenerator) Generate() *j.Statement {
 	return f.generate()
 }
 
-// genOptionalEmbedStub shadows obj with a copy which has an empty embedded parent when the
+// genOptionalEmbedStub shadows obj with the embedded parent itself, or with an empty one when the
 // parent is nil, so that the fragment below reads zero values instead of dereferencing nil
+// (obj may be a pointer or, for elements and messages held by value, a struct: both have the parent)
 func (f *FieldCopyToGenerator) genOptionalEmbedStub() *j.Statement {
-	// obj := obj
-	// if obj.Embedded == nil {
-	//     c := *obj
-	//     c.Embedded = &Embedded{}
-	//     obj = &c
+	// obj := obj.Embedded
+	// if obj == nil {
+	//     obj = &Embedded{}
 	// }
 	parent := f.ParentIsOptionalEmbedFieldName
-	return j.Id("obj").Op(":=").Id("obj").Line().
-		If(j.Id("obj."+parent).Op("==").Nil()).Block(
-		j.Id("c").Op(":=").Op("*").Id("obj"),
-		j.Id("c."+parent).Op("=").Id("&"+f.ParentIsOptionalEmbedFullType+"{}"),
-		j.Id("obj").Op("=").Id("&c"),
+	return j.Id("obj").Op(":=").Id("obj." + parent).Line().
+		If(j.Id("obj").Op("==").Nil()).Block(
+		j.Id("obj").Op("=").Id("&" + f.ParentIsOptionalEmbedFullType + "{}"),
 	)
 }
 
@@ -170,7 +167,7 @@ func (f *FieldCopyToGenerator) genZeroValue(fieldName string) func(*j.Group) {
 		}
 
 		// v.Null = v.Value == ""
-		if f.ZeroValue != "" && f.ParentIsOptionalEmbed && f.OneOfName == "" {
+		if f.ZeroValue != "" && f.ParentIsOptionalEmbed && f.OneOfName == "" && f.Kind == PrimitiveKind {
 			// The field can only be read when the embedded parent is not nil (it is rendered as null otherwise)
 			g.If(j.Id("obj." + f.ParentIsOptionalEmbedFieldName).Op("!=").Nil()).Block(
 				j.Id("v.Null").Op("=").Id(f.i.WithType(f.ValueCastToType)).Parens(j.Id(fieldName)).Op("==").Id(f.ZeroValue),
@@ -193,7 +190,8 @@ func (f *FieldCopyToGenerator) genPrimitiveBody(fieldName string, g *j.Group) {
 	g.If(j.Id("!ok")).BlockFunc(f.genZeroValue(fieldName))
 
 	if !f.IsPlaceholder {
-		if f.ParentIsOptionalEmbed && f.OneOfName == "" {
+		// (elements of a list or map are only reached through an existing parent)
+		if f.ParentIsOptionalEmbed && f.OneOfName == "" && f.Kind == PrimitiveKind {
 			g.If(j.Id("obj." + f.ParentIsOptionalEmbedFieldName).Op("==").Nil()).Block(
 				j.Id("v.Null").Op("=").True(),
 			).Else().Block(f.genAssignValue(fieldName))
